@@ -84,6 +84,7 @@ class Summary:
         self.oracles = {o[0]: o[1] for o in self.fields.get("oracles", [])}
         self.stats = {s[0]: int(s[1]) for s in self.fields.get("stats", [])}
         self.pids = {p[0]: p[1] for p in self.fields.get("pids", [])}
+        self.placement = {p[0]: p[1] for p in self.fields.get("placement", [])}
         self.mailboxes = {m[0]: int(m[1]) for m in self.fields.get("mailbox-left", [])}
         self.schedule = self.fields.get("schedule")
 
@@ -676,8 +677,7 @@ def explore(ctx, runner, scenarios, nsched, judge, route=None, opts_for=None, ex
         "failing_groups": {"%s/%s%s" % (t, k, "/" + f if f else ""): len(v) for (t, k, f), v in failures.items()},
         "known_finding_hits": dict(known_hits),
         "samples": [lines[0], lines[1], res[1].line[:400]] if len(lines) > 1 else [],
-        "traces_validated_against_impl": 0, "disagreements_checked": sum(len(v) for v in failures.values()),
-        "obligations": 0, "discharged": 0, "checker_cmd": "none (exploration; Coq model pending)",
+        "disagreements_checked": sum(len(v) for v in failures.values()),
     }
     if extra_cov:
         cov.update(extra_cov)
@@ -1140,3 +1140,89 @@ def compare_replay(model_line, expected, stamps):
             return agreed, "step %d: %s" % (i, d)
         agreed += 1
     return agreed, None
+
+
+# ----------------------------------------------------------------------------- proof layer shared by C03 / C04 / C15
+
+def _replay_chunk(args):
+    """Worker process: trace a chunk of cases on the real code, replay them through the model."""
+    import subprocess
+    exe, drv, lines = args
+    out = subprocess.run([exe, "--trace"], input="\n".join(lines) + "\n", capture_output=True, text=True).stdout.splitlines()
+    chunks, cur = [], []
+    for l in out:
+        cur.append(l)
+        if l.startswith("(result") or l.startswith("(sim-panic"):
+            chunks.append(cur)
+            cur = []
+    res = {"actions": 0, "traces": 0, "unmodelled": {}, "diverged": [], "summaries": {}}
+    replays, metas = [], []
+    for line, ch in zip(lines, chunks):
+        try:
+            t = parse_trace(ch)
+            rl, exp, stamps, n = trace_to_replay(t)
+            replays.append(rl)
+            metas.append((line, exp, stamps, ch[-1]))
+        except Unmodelled as e:
+            k = str(e).split(" ")[0]
+            res["unmodelled"][k] = res["unmodelled"].get(k, 0) + 1
+        except Exception as e:           # a trace this code cannot read is a correspondence failure, not a crash
+            res["diverged"].append((line, "trace not understood: %r" % (e,), ch[-1] if ch else ""))
+    if replays:
+        mo = subprocess.run([drv], input="\n".join(replays) + "\n", capture_output=True, text=True).stdout.splitlines()
+        mo += ["(missing-output)"] * (len(replays) - len(mo))
+        for (line, exp, stamps, summ), m in zip(metas, mo):
+            agreed, d = compare_replay(m, exp, stamps)
+            res["actions"] += agreed
+            res["traces"] += 1
+            if d:
+                res["diverged"].append((line, d, summ))
+    return res
+
+
+def correspondence(ctx, exe, drv, lines, judge_line):
+    """Replay `lines` (qv_sim cases) through the extracted M-Sys model; every divergence is a
+    `correspondence-broken` violation — with the real run's oracle verdict deciding between
+    impl-violation and no-failing-input-found. judge_line(Summary) -> list of problems."""
+    import concurrent.futures as cf
+    from vplib.common import NCPU
+    if not lines:
+        return
+    nchunks = max(1, min(NCPU, len(lines) // 4))
+    size = (len(lines) + nchunks - 1) // nchunks
+    jobs = [(exe, drv, lines[i:i + size]) for i in range(0, len(lines), size)]
+    with cf.ProcessPoolExecutor(max_workers=nchunks) as ex:
+        results = list(ex.map(_replay_chunk, jobs))
+    actions = sum(r["actions"] for r in results)
+    traces = sum(r["traces"] for r in results)
+    unmod = {}
+    diverged = []
+    for r in results:
+        for k, v in r["unmodelled"].items():
+            unmod[k] = unmod.get(k, 0) + v
+        diverged += r["diverged"]
+    ctx.cov["traces_validated_against_impl"] = actions
+    ctx.cov["traces_replayed"] = traces
+    ctx.cov["traces_not_modelled"] = unmod
+    ctx.cov["correspondence"] = "every scheduler action of a `qv_sim --trace` run replayed through the extracted sys/Proto.v (sys_step); state compared after EVERY action: run queue (ordered), parked sets, mailboxes, results, awaiting maps, awaited/awaiters, command and event queues (ordered, full contents), router, pending awaits, next pid, clock"
+    ctx.cov["disagreements_checked"] = ctx.cov.get("disagreements_checked", 0) + len(diverged)
+    for line, d, summ in diverged[:3]:
+        s = Summary(summ)
+        probs = judge_line(s) if s.ok else ["simulator: " + summ[:200]]
+        ctx.violation({"kind": "impl-violation" if probs else "correspondence-broken",
+                       "correspondence": "M-Sys (coq/theories/sys/Proto.v) vs Environment/Worker/Executor through qv_sim",
+                       "case": line, "first_divergence": d, "impl_oracles": probs, "observed": summ[:2000]},
+                      no_input=not probs)
+
+
+def proof_layer(ctx):
+    """Build + audit the property's Coq cone and the extracted model driver. Returns (ok, driver)."""
+    ok = ctx.coq_props()
+    drv = ctx.driver("proto")
+    return ok, drv
+
+
+def theorem_broken(ctx, found_failures):
+    ctx.violation({"kind": "theorem-broken", "theorem": getattr(ctx, "broken_theorem", "?"),
+                   "searched": "schedule exploration of the real runtime (see coverage): %d failing cases" % found_failures},
+                  no_input=(found_failures == 0))
